@@ -250,139 +250,313 @@ func c11Restart(p *Prog, c *Check) {
 	}
 }
 
+// view: a function together with the translation of its terms into those of the function the rule
+// reasons in (identity there; parameter substitution, composed, for helpers below it).
+type view struct {
+	fi *FnInfo
+	up func(*Term) *Term
+}
+
+func (v view) atoms(as []Atom) []Atom {
+	out := make([]Atom, 0, len(as))
+	for _, a := range as {
+		out = append(out, mkAtom(a.Op, v.up(a.L), v.up(a.R)))
+	}
+	return out
+}
+
+// viewOfValue: the view of the function that defines val, reached from root (view rv) through static
+// calls (val's function is root itself, or a callee of a function already in view).
+func (p *Prog) viewOfValue(rv view, val ssa.Value, depth int) (view, bool) {
+	if val == nil || val.Parent() == nil {
+		return view{}, false
+	}
+	g := val.Parent()
+	if g == rv.fi.Fn {
+		return rv, true
+	}
+	if depth > 2 {
+		return view{}, false
+	}
+	// a call of g inside a function in view
+	var try func(v view, d int) (view, bool)
+	try = func(v view, d int) (view, bool) {
+		for _, b := range v.fi.Fn.Blocks {
+			for _, in := range b.Instrs {
+				call, ok := in.(*ssa.Call)
+				if !ok {
+					continue
+				}
+				h := call.Common().StaticCallee()
+				if h == nil || !inModule(h) || h.Blocks == nil {
+					continue
+				}
+				h = origin(h)
+				m := map[string]*Term{}
+				for i, prm := range h.Params {
+					if i < len(call.Common().Args) {
+						m[prm.Name()] = v.fi.T(call.Common().Args[i])
+					}
+				}
+				hv := view{p.Info(h), func(t *Term) *Term { return v.up(t.subst(m)) }}
+				if h == g {
+					return hv, true
+				}
+				if d < 2 {
+					if r, ok := try(hv, d+1); ok {
+						return r, true
+					}
+				}
+			}
+		}
+		return view{}, false
+	}
+	return try(rv, depth)
+}
+
+// countingAccum: val (in view v) is a counter over a collection: a header phi of a counted loop
+// from 0 that starts at 0 and is only ever incremented by 1. Returns the loop, the increment sites.
+func (p *Prog) countingAccum(v view, val ssa.Value) (*Loop, []*ssa.BinOp) {
+	fn := v.fi.Fn
+	// the value after the loop may be the header phi itself or a phi merging it
+	var cands []*ssa.Phi
+	if ph, ok := val.(*ssa.Phi); ok {
+		cands = append(cands, ph)
+		for _, e := range ph.Edges {
+			if eph, ok := e.(*ssa.Phi); ok {
+				cands = append(cands, eph)
+			}
+		}
+	}
+	for _, l := range loopsOf(p, fn) {
+		if l.Idx == nil || l.Lo != 0 {
+			continue
+		}
+		for _, acc := range cands {
+			if acc.Block() != l.Header || v.fi.T(acc).s == l.Idx.s || strings.HasPrefix(acc.Comment, "range") {
+				continue
+			}
+			okAcc := true
+			var incs []*ssa.BinOp
+			for k, e := range acc.Edges {
+				if !l.Blocks[acc.Block().Preds[k]] {
+					if c0, isC := intConst(v.fi.T(e)); !isC || c0 != 0 {
+						okAcc = false
+					}
+				}
+			}
+			// every in-loop definition feeding the accumulator is acc+1 or a phi of those
+			var feeds func(x ssa.Value, seen map[ssa.Value]bool) bool
+			feeds = func(x ssa.Value, seen map[ssa.Value]bool) bool {
+				if x == ssa.Value(acc) || seen[x] {
+					return true
+				}
+				seen[x] = true
+				switch y := x.(type) {
+				case *ssa.BinOp:
+					if c1, isC := intConst(v.fi.T(y.Y)); y.Op == token.ADD && isC && c1 == 1 && feeds(y.X, seen) {
+						incs = append(incs, y)
+						return true
+					}
+				case *ssa.Phi:
+					if !l.Blocks[y.Block()] {
+						return false
+					}
+					for _, e := range y.Edges {
+						if !feeds(e, seen) {
+							return false
+						}
+					}
+					return true
+				}
+				return false
+			}
+			for k, e := range acc.Edges {
+				if l.Blocks[acc.Block().Preds[k]] && !feeds(e, map[ssa.Value]bool{}) {
+					okAcc = false
+				}
+			}
+			if okAcc && len(incs) > 0 {
+				return l, incs
+			}
+		}
+	}
+	return nil, nil
+}
+
 func c11Started(p *Prog, c *Check) {
 	rule := "C11-R5"
-	eb, err := p.Func("app.ShutterApp.EndBlock")
-	if !c.Must(err) {
+	if _, err := p.Func("app.ShutterApp.EndBlock"); !c.Must(err) {
 		return
 	}
-	c.Analysed(shortFn(eb))
-	fi := p.Info(eb)
 	n := 0
-	for _, blk := range eb.Blocks {
-		for _, in := range blk.Instrs {
-			st, ok := in.(*ssa.Store)
-			if !ok {
-				continue
-			}
-			fa, ok := st.Addr.(*ssa.FieldAddr)
-			if !ok || fieldName(fa.X.Type(), fa.Field) != "Started" {
-				continue
-			}
-			n++
-			key := fmt.Sprintf("EndBlock:Started#%d", n)
-			if fi.T(st.Val).s != "true" {
-				c.Fail(rule, key, p.siteOf(st), shortFn(eb), "config.Started = "+fi.T(st.Val).s, "Started is written with something other than true")
-				continue
-			}
-			cfg := fi.T(fa.X)
-			b := Binds{"cfg": cfg}
-			a, has := findAtom(fi.FactsAt(st), "$req <= $votes", b)
-			// prefer the comparison whose left side is a threshold
-			for _, cand := range fi.FactsAt(st) {
-				cb := Binds{"cfg": cfg}
-				if ParseAtomPat("$req <= $votes").Match(cand, cb) && cb["req"].K == TField && cb["req"].Name == "Threshold" {
-					a, has = cand, true
-					b["req"], b["votes"] = cb["req"], cb["votes"]
+	for _, sf := range p.Funcs {
+		if relPkg(fnPkgPath(sf)) != "app" || isTestScaffold(sf) {
+			continue
+		}
+		sfi := p.Info(sf)
+		for _, blk := range sf.Blocks {
+			for _, in := range blk.Instrs {
+				st, ok := in.(*ssa.Store)
+				if !ok {
+					continue
 				}
-			}
-			if !has {
-				c.Fail(rule, key, p.siteOf(st), shortFn(eb), "config.Started = true", "not guarded by a comparison numVotes >= required", atomStrings(fi.FactsAt(st))...)
-				continue
-			}
-			// required = Configs[a].Threshold with a = (i > 0 ? i-1 : 0) where cfg = Configs[i]
-			req, votes := b["req"], b["votes"]
-			rb := Binds{}
-			okReq := ParsePat("_.Configs[$a].Threshold").Match(req, rb)
-			why := ""
-			if !okReq {
-				why = "the required number of reports is not the threshold of a configuration selected by index: " + req.s
-			}
-			var outer *Loop
-			if okReq {
-				aphi, isPhi := rb["a"].Val.(*ssa.Phi)
-				ib := Binds{}
-				if !ParsePat("_.Configs[$i]").Match(cfg, ib) {
-					okReq = false
-					why = "the configuration being started is not app.Configs[i]"
-				} else if !isPhi {
-					okReq = false
-					why = "the allowance index is not max(i-1, 0): " + rb["a"].s
-				} else {
-					for _, l := range loopsOf(p, eb) {
-						if l.Idx != nil && l.Idx.s == ib["i"].s {
-							outer = l
-						}
-					}
-					for k, e := range aphi.Edges {
-						et := fi.T(e)
-						pred := aphi.Block().Preds[k]
-						pf := append(append([]Atom{}, fi.blockFacts(pred)...), fi.edgeAtoms(pred, aphi.Block())...)
-						if v, isC := intConst(et); isC && v == 0 {
-							continue
-						}
-						if ParsePat("($i - 1)").Match(et, copyBinds(ib)) {
-							if _, pos := findAtom(pf, "0 < $i", copyBinds(ib)); pos {
-								continue
-							}
-						}
-						okReq = false
-						why = "the allowance index is not max(i-1, 0): edge " + et.s
-					}
+				fa, ok := st.Addr.(*ssa.FieldAddr)
+				if !ok || fieldName(fa.X.Type(), fa.Field) != "Started" || baseAlloc(fa) != nil {
+					continue
 				}
-			}
-			// votes: counting accumulator over Configs[a].Keypers under BlocksSeen[k] ok and >= cfg.ActivationBlockNumber
-			okVotes := false
-			whyV := "numVotes is not a count over the preceding configuration's keypers of reports at or past the activation block"
-			if vphi, isPhi := votes.Val.(*ssa.Phi); isPhi && okReq {
-				// the phi after the inner loop merges; find the inner loop whose header holds an accumulator feeding it
-				for _, l := range loopsOf(p, eb) {
-					if l.Idx == nil || l.Lo != 0 {
-						continue
-					}
-					lb := Binds{"a": rb["a"]}
-					if !ParsePat("len(_.Configs[$a].Keypers)").Match(l.Bound, lb) {
-						continue
-					}
-					// increments inside the loop
-					okInc := false
-					bad := false
-					for bb := range l.Blocks {
-						for _, x := range bb.Instrs {
-							bo, isBO := x.(*ssa.BinOp)
-							if !isBO || bo.Op != token.ADD {
-								continue
-							}
-							if v, isC := intConst(fi.T(bo.Y)); !isC || v != 1 {
-								continue
-							}
-							if _, isAcc := bo.X.(*ssa.Phi); !isAcc || bo.X.(*ssa.Phi).Block() != l.Header || fi.T(bo.X).s == l.Idx.s || strings.HasPrefix(bo.X.(*ssa.Phi).Comment, "range") {
-								continue
-							}
-							kb := Binds{"a": rb["a"], "j": l.Idx, "cfg": cfg}
-							_, a1 := findAtom(fi.FactsAt(bo), "ok(_.BlocksSeen[_.Configs[$a].Keypers[$j]]) == true", kb)
-							_, a2 := findAtom(fi.FactsAt(bo), "$cfg.ActivationBlockNumber <= _.BlocksSeen[_.Configs[$a].Keypers[$j]]", kb)
-							if a1 && a2 {
-								okInc = true
-							} else {
-								bad = true
-							}
-						}
-					}
-					if okInc && !bad && (vphi.Block() == l.Header || l.Header.Dominates(vphi.Block()) || true) {
-						okVotes = true
-					}
+				n++
+				c.Analysed(shortFn(sf))
+				key := fmt.Sprintf("%s:Started#%d", fnName(sf), n)
+				if sfi.T(st.Val).s != "true" {
+					c.Fail(rule, key, p.siteOf(st), shortFn(sf), "config.Started = "+sfi.T(st.Val).s, "Started is written with something other than true")
+					continue
 				}
+				ok2, why, used := c11StartedAt(p, st, sfi.T(fa.X), 0)
+				c.Result(ok2, rule, key, p.siteOf(st), shortFn(sf), "config.Started = true", why, used...)
 			}
-			if !okReq {
-				c.Fail(rule, key, p.siteOf(st), shortFn(eb), "config.Started = true", why, a.s)
-				continue
-			}
-			_ = outer
-			c.Result(okVotes, rule, key, p.siteOf(st), shortFn(eb), "config.Started = true", whyV, a.s, "required = Configs[max(i-1,0)].Threshold", "votes = #{k ∈ Configs[max(i-1,0)].Keypers : BlocksSeen[k] ≥ cfg.ActivationBlockNumber}")
 		}
 	}
 	c.Floor(rule, n, 1)
+}
+
+// c11StartedAt: at instruction `at` (the store, or a call site the store's function is reached
+// through), with cfg the configuration being started in that function's terms.
+func c11StartedAt(p *Prog, at ssa.Instruction, cfg *Term, depth int) (bool, string, []string) {
+	fn := at.Parent()
+	fi := p.Info(fn)
+	facts := fi.FactsWithImports(at)
+	var a Atom
+	has := false
+	b := Binds{"cfg": cfg}
+	for _, cand := range facts {
+		cb := Binds{"cfg": cfg}
+		if ParseAtomPat("$req <= $votes").Match(cand, cb) && cb["req"].K == TField && cb["req"].Name == "Threshold" {
+			a, has = cand, true
+			b["req"], b["votes"] = cb["req"], cb["votes"]
+		}
+	}
+	if !has {
+		// the comparison may guard a call site of this function
+		if depth < 2 && fn.Parent() == nil {
+			callers := 0
+			var used []string
+			for _, cs := range p.CG().Callers(fn) {
+				if isTestScaffold(cs.Caller) || cs.Instr.Common().IsInvoke() {
+					continue
+				}
+				callers++
+				cfi := p.Info(cs.Caller)
+				m := map[string]*Term{}
+				for i, prm := range fn.Params {
+					if i < len(cs.Instr.Common().Args) {
+						m[prm.Name()] = cfi.T(cs.Instr.Common().Args[i])
+					}
+				}
+				ok, why, u := c11StartedAt(p, cs.Instr, cfg.subst(m), depth+1)
+				if !ok {
+					return false, why + " (via call site " + p.siteOf(cs.Instr) + ")", nil
+				}
+				used = append(used, u...)
+			}
+			if callers > 0 {
+				return true, "", used
+			}
+		}
+		return false, "not guarded by a comparison numVotes >= required threshold", atomStrings(facts)
+	}
+	root := view{fi, func(t *Term) *Term { return t }}
+	// required = Configs[a].Threshold with a = (i > 0 ? i-1 : 0) where cfg = Configs[i]
+	req, votes := b["req"], b["votes"]
+	rb := Binds{}
+	if !ParsePat("_.Configs[$a].Threshold").Match(req, rb) {
+		return false, "the required number of reports is not the threshold of a configuration selected by index: " + req.s, nil
+	}
+	ib := Binds{}
+	if !ParsePat("_.Configs[$i]").Match(cfg, ib) {
+		return false, "the configuration being started is not app.Configs[i]: " + cfg.s, nil
+	}
+	aphi, isPhi := rb["a"].Val.(*ssa.Phi)
+	if !isPhi {
+		return false, "the allowance index is not max(i-1, 0): " + rb["a"].s, nil
+	}
+	av, okV := p.viewOfValue(root, aphi, 0)
+	if !okV {
+		return false, "cannot relate the allowance index to the started configuration (defined out of view): " + rb["a"].s, nil
+	}
+	for k, e := range aphi.Edges {
+		et := av.up(av.fi.T(e))
+		pred := aphi.Block().Preds[k]
+		pf := av.atoms(append(append([]Atom{}, av.fi.blockFacts(pred)...), av.fi.edgeAtoms(pred, aphi.Block())...))
+		if v, isC := intConst(et); isC && v == 0 {
+			continue
+		}
+		if ParsePat("($i - 1)").Match(et, copyBinds(ib)) {
+			if _, pos := findAtom(pf, "0 < $i", copyBinds(ib)); pos {
+				continue
+			}
+		}
+		return false, "the allowance index is not max(i-1, 0): edge " + et.s, nil
+	}
+	// votes: counting accumulator over Configs[a].Keypers under BlocksSeen[k] ok and >= cfg.ActivationBlockNumber,
+	// local or returned by a helper
+	type accAt struct {
+		v   view
+		val ssa.Value
+	}
+	var accs []accAt
+	switch {
+	case votes.Val == nil:
+		return false, "the vote count has no defining value: " + votes.s, nil
+	default:
+		if vv, ok := p.viewOfValue(root, votes.Val, 0); ok {
+			if call, isCall := votes.Val.(*ssa.Call); isCall {
+				h := call.Common().StaticCallee()
+				if h == nil || !inModule(h) || h.Blocks == nil {
+					return false, "the vote count is the result of a call out of view: " + votes.s, nil
+				}
+				h = origin(h)
+				m := map[string]*Term{}
+				for i, prm := range h.Params {
+					if i < len(call.Common().Args) {
+						m[prm.Name()] = vv.fi.T(call.Common().Args[i])
+					}
+				}
+				hv := view{p.Info(h), func(t *Term) *Term { return vv.up(t.subst(m)) }}
+				for _, r := range returnsOf(h) {
+					accs = append(accs, accAt{hv, r.Results[0]})
+				}
+			} else {
+				accs = append(accs, accAt{vv, votes.Val})
+			}
+		} else {
+			return false, "the vote count is defined out of view: " + votes.s, nil
+		}
+	}
+	if len(accs) == 0 {
+		return false, "the vote count has no defining value: " + votes.s, nil
+	}
+	whyV := "numVotes is not a count over the preceding configuration's keypers of reports at or past the activation block"
+	for _, ac := range accs {
+		l, incs := p.countingAccum(ac.v, ac.val)
+		if l == nil {
+			return false, whyV + " (no counting loop for " + ac.v.fi.T(ac.val).s + ")", nil
+		}
+		lb := Binds{"a": rb["a"]}
+		if !ParsePat("len(_.Configs[$a].Keypers)").Match(ac.v.up(l.Bound), lb) {
+			return false, whyV + " (loop runs over " + ac.v.up(l.Bound).s + ")", nil
+		}
+		for _, bo := range incs {
+			kb := Binds{"a": rb["a"], "j": l.Idx, "cfg": cfg}
+			fs := ac.v.atoms(ac.v.fi.FactsAt(bo))
+			_, a1 := findAtom(fs, "ok(_.BlocksSeen[_.Configs[$a].Keypers[$j]]) == true", kb)
+			_, a2 := findAtom(fs, "$cfg.ActivationBlockNumber <= _.BlocksSeen[_.Configs[$a].Keypers[$j]]", kb)
+			if !a1 || !a2 {
+				return false, whyV + " (an increment at " + p.siteOf(bo) + " is not under both conditions)", atomStrings(fs)
+			}
+		}
+	}
+	return true, "", []string{a.s, "required = Configs[max(i-1,0)].Threshold", "votes = #{k ∈ Configs[max(i-1,0)].Keypers : BlocksSeen[k] ≥ cfg.ActivationBlockNumber}"}
 }
 
 func c11Nonce(p *Prog, c *Check, rule string) {
